@@ -370,3 +370,58 @@ impl gmsol_model::LiquidityMarketMut<{ constants::MARKET_DECIMALS }>
         Ok(())
     }
 }
+
+/// Verification hooks (add-only, compiled only with `--cfg gmsol_verif`).
+#[cfg(gmsol_verif)]
+pub mod verif {
+    use anchor_lang::prelude::*;
+    use anchor_spl::token::Mint;
+
+    use crate::states::Store;
+
+    use super::{RevertibleLiquidityMarket, RevertibleMarket};
+
+    /// Wrapper of [`RevertibleLiquidityMarket::from_revertible_market`] followed by the optional
+    /// `enable_mint` / `enable_burn`.
+    pub fn from_revertible_market<'a, 'info>(
+        market: RevertibleMarket<'a, 'info>,
+        market_token: &'a Account<'info, Mint>,
+        token_program: &'a AccountInfo<'info>,
+        store: &'a AccountLoader<'info, Store>,
+        receiver: Option<&'a AccountInfo<'info>>,
+        vault: Option<&'a AccountInfo<'info>>,
+    ) -> Result<RevertibleLiquidityMarket<'a, 'info>> {
+        let mut market = RevertibleLiquidityMarket::from_revertible_market(
+            market,
+            market_token,
+            token_program,
+            store,
+        )?;
+        if let Some(receiver) = receiver {
+            market = market.enable_mint(receiver);
+        }
+        if let Some(vault) = vault {
+            market = market.enable_burn(vault);
+        }
+        Ok(market)
+    }
+
+    /// Deferred `(to_mint, to_burn)` amounts.
+    pub fn pending(market: &RevertibleLiquidityMarket<'_, '_>) -> (u64, u64) {
+        (market.to_mint, market.to_burn)
+    }
+
+    /// Wrapper of `RevertibleLiquidityMarket::base`.
+    pub fn base<'b, 'a, 'info>(
+        market: &'b RevertibleLiquidityMarket<'a, 'info>,
+    ) -> &'b RevertibleMarket<'a, 'info> {
+        market.base()
+    }
+
+    /// Wrapper of `RevertibleLiquidityMarket::base_mut`.
+    pub fn base_mut<'b, 'a, 'info>(
+        market: &'b mut RevertibleLiquidityMarket<'a, 'info>,
+    ) -> &'b mut RevertibleMarket<'a, 'info> {
+        market.base_mut()
+    }
+}
